@@ -26,15 +26,17 @@ func vfReaderBacked(r *Snapshot, what string) {
 // item backing it stays open while it is held, and after everything is closed
 // each item loaded from the directory was released exactly once.
 //
-// vf:harness property=C04 cases=unsafe:0 cases.thorough=unsafe:0..1 sched=1 schedbudget=1 preempt=1 schedtotal=1 schedtotal.thorough=2 goinline=1 chanslack=8 deadlock=violation clock=zero maxpaths=400000 replay=model-only diff=off
+// vf:harness property=C04 cases=unsafe:0;order:0..1 cases.thorough=unsafe:0..1;order:0..2 sched=1 schedbudget=1 preempt=1 schedtotal=1 schedtotal.thorough=2 goinline=1 chanslack=8 deadlock=violation clock=zero maxpaths=400000 replay=model-only diff=off
 // vf:replace hash/crc32.Update vfChecksumUpdate
 // vf:replace io.CopyN vfCopyN
 // vf:replace (*github.com/RoaringBitmap/roaring.Bitmap).ReadFrom vfRoaringReadFrom
 // vf:replace (*github.com/RoaringBitmap/roaring.Bitmap).ToBytes vfRoaringToBytes
-// vf:bounds one caller (update id 1, then overwrite id 1) and one reader goroutine (Reader, two reads, Close), arbitrary payloads, fresh model directory; at most schedtotal departures from the default schedule anywhere along the run, each another runnable goroutine at a blocking point or a switch before a synchronisation operation
-// vf:assume sequentially consistent goroutines that switch only at synchronisation operations; model directory whose items are released by their closer (models munmap) and model segment plugin; CRC-32 and roaring codec replaced by models; time.After fires immediately, elapsed times (statistics only) read as zero
-func VF_C04_LiveReaderUnderWriter(unsafe int) {
+// vf:bounds default schedule: lowest goroutine id first or longest-waiting first (FIFO), thorough also highest id first; one caller (update id 1, then overwrite id 1) and one reader goroutine (Reader, two reads, Close), arbitrary payloads, fresh model directory; at most schedtotal departures from the default schedule anywhere along the run, each another runnable goroutine at a blocking point or a switch before a synchronisation operation
+// vf:assume sequentially consistent goroutines that switch at synchronisation operations and I/O seams (directory Persist/Remove, plugin Merge); model directory whose items are released by their closer (models munmap) and model segment plugin; CRC-32 and roaring codec replaced by models; time.After fires immediately, elapsed times (statistics only) read as zero
+func VF_C04_LiveReaderUnderWriter(unsafe int, order int) {
+	vfSchedOrder(order)
 	dir := vfNewDir()
+	dir.seams = true
 	w, err := OpenWriter(vfLiveConfig(dir, unsafe == 1))
 	vfAssert(err == nil && w != nil, "OpenWriter succeeds on an empty directory")
 	p1, p2 := vfByte("payload"), vfByte("payload")
